@@ -467,6 +467,10 @@ class ChirpZTransformExecutor:
         if not isinstance(Q, Iterable):
             Q = (Q, Q)
 
+        # Python floats: a NumPy scalar Q (e.g. from an array) would promote the chirps of single-precision
+        # input to double precision, while comparing equal to the Python number in the cache key
+        Q = tuple(float(q) for q in Q)
+
         if ary.dtype.kind not in 'fc':
             # integer or boolean input (e.g. a binary aperture mask): the chirps and the kernel
             # must be built in floating point, as the matrix DFT does
